@@ -114,6 +114,17 @@ def head_fields(ctx):
     return out
 
 
+def _narrowed_from(st):
+    """`L = M`, `L = M.strip(..)` / lstrip / rstrip / lower / upper: the name M, else None"""
+    if not (isinstance(st, ast.Assign) and len(st.targets) == 1 and isinstance(st.targets[0], ast.Name)):
+        return None
+    v = st.value
+    if isinstance(v, ast.Call) and isinstance(v.func, ast.Attribute) and v.func.attr in ("strip", "lstrip", "rstrip", "lower", "upper") and not v.keywords \
+            and all(isinstance(a, ast.Constant) for a in v.args):
+        v = v.func.value
+    return v.id if isinstance(v, ast.Name) else None
+
+
 def r1(ctx):
     repo = ctx.repo
     fields = head_fields(ctx) - {"version", "req", "chunked"}
@@ -152,8 +163,18 @@ def r1(ctx):
                 for lf in leaves:
                     if _literal_only(f, lf.id):
                         continue
-                    recog = _either(forbidden_recog(repo, f, lf.id), token_recog(repo, f, lf.id))
-                    p, hits = guard_check(f, [s], recog, kills=[k for k in kills_of(f, lf.id) if k is not s])
+                    # a local that only ever holds a trimmed / case-folded copy of another value (`v = value.strip(' \t')`,
+                    # the result variable of an expanded helper) is as valid as that value was when the copy was taken
+                    L, tg = lf.id, [s]
+                    for _ in range(3):
+                        sts = stores_to_name(f, L)
+                        srcs = [_narrowed_from(x.ast) if x.kind == "stmt" else None for x in sts]
+                        if sts and all(srcs) and len(set(srcs)) == 1 and srcs[0] != L:
+                            L, tg = srcs[0], sts
+                        else:
+                            break
+                    recog = _either(forbidden_recog(repo, f, L), token_recog(repo, f, L))
+                    p, hits = guard_check(f, tg, recog, kills=[k for k in kills_of(f, L) if k not in tg])
                     ctx.check("C09.R1", p is None, key(f, "unvalidated|%s|%s" % (fld, lf.id)), site(f, s),
                               "application-supplied `%s` is stored into Response.%s (formatted into the response head by default_headers/send_headers) without a dominating "
                               "validate-or-raise: CR / LF / NUL reach the wire (e.g. status '200 OK\\r\\nX-Evil: 1' adds a header line)" % (lf.id, fld),
